@@ -310,6 +310,7 @@ class Gen:
         self.ops = []
         self.fresh = fresh_labels
         self.nnames = 0
+        self.bad_ids = 0.0     # probability that add_attacker is given an id that no node has (the call is rejected half-way)
 
     def do(self, op):
         self.ops.append(op)
@@ -358,8 +359,12 @@ class Gen:
 
     def op_new_att_and_add(self):
         rng = self.rng
-        self.do(('new_att', rng.choice(['alice', 'bob', 'eve'])))
-        h = len(self.w.atts) - 1
+        out = [h for h in range(len(self.w.atts)) if h not in self.atts_in_graph()]
+        if self.bad_ids and out and rng.random() < 0.3:
+            h = rng.choice(out)                                 # an attacker that was rejected or removed before, added again
+        else:
+            self.do(('new_att', rng.choice(['alice', 'bob', 'eve'])))
+            h = len(self.w.atts) - 1
         g = self.w.graph
         r = rng.random()
         aid = None if r < 0.6 else rng.choice([0, 1, 3, -2, g.next_attacker_id + 1] + list(g._id_to_attacker.keys()))
@@ -372,6 +377,12 @@ class Gen:
             reached = reached + [rng.choice(reached)]          # a step named twice is compromised once
         if rng.random() < 0.25:
             reached = []                                        # entry points without reached steps
+        if self.bad_ids and rng.random() < self.bad_ids:
+            unknown = max(ids + [0]) + rng.randint(1, 4)
+            if rng.random() < 0.6:
+                reached = reached + [unknown]                   # after the valid ones: they are compromised before the call fails
+            else:
+                entry = entry + [unknown]
         self.do(('add_att', h, aid, reached, entry))
 
     def step(self):
@@ -478,8 +489,9 @@ class Gen:
         return len({id(n) for n in ns}) == len(ns) and len({id(a) for a in g.attackers}) == len(g.attackers)
 
 
-def gen_history(impl, rng, weights, n_nodes=(2, 6), n_links=(0, 8), n_atts=(0, 3), n_steps=(0, 10), fresh=False):
+def gen_history(impl, rng, weights, n_nodes=(2, 6), n_links=(0, 8), n_atts=(0, 3), n_steps=(0, 10), fresh=False, bad_ids=0.0):
     g = Gen(impl, rng, weights, fresh_labels=fresh)
+    g.bad_ids = bad_ids
     old = signal.signal(signal.SIGALRM, _alarm)
     signal.alarm(20)
     try:
